@@ -1,4 +1,6 @@
 import Nstd.Json.LemmasParse
+set_option linter.unusedSimpArgs false
+set_option linter.unusedVariables false
 /-
   Property C15, exactness of the error position (lemmas).  `parse` reports `(line, column)` of the cursor handed to
   `syntaxError`; here: WHICH cursor that is, by error class.
@@ -290,5 +292,195 @@ theorem readToken_fail_cases (line : Nat) (r : List Byte) (l : Nat) (p : List By
   | fail l' p' => exact absurd e (skipSpace_not_fail r.length r line l' p' (Nat.le_refl _))
   | oob => rw [e] at h; simp [Res.bind] at h
   | nofuel => rw [e] at h; simp [Res.bind] at h
+
+
+/-! ### where the string loop stops -/
+
+/-- why the string loop of `readToken` stops with an error at cursor `p`; `pre` = the bytes of the literal in front of `p` -/
+inductive StrStop : List Byte → List Byte → Prop
+  /-- the text ends inside the literal: the error is AT the terminating NUL -/
+  | eof (pre p : List Byte) (h : p.head? = some 0) : StrStop pre p
+  /-- a `\u` escape with fewer than four hexadecimal digits: the error is AT the first byte that is not one -/
+  | badHex (pre ds p : List Byte) (c : Byte) (hl : ds.length < 4) (hd : ∀ d ∈ ds, isHexDigit d = true)
+      (hc : p.head? = some c) (hn : isHexDigit c = false) : StrStop (pre ++ [92, 117] ++ ds) p
+  /-- a high surrogate escape `\uD800`..`\uDBFF` that is not followed by a low surrogate escape: the error is
+      immediately BEHIND the high surrogate escape -/
+  | loneHigh (pre ds p : List Byte) (hl : ds.length = 4) (hd : ∀ d ∈ ds, isHexDigit d = true)
+      (hs : scanHex ds &&& 0xF800 = 0xD800 ∧ scanHex ds &&& 0xFC00 = 0xD800) : StrStop (pre ++ [92, 117] ++ ds) p
+
+theorem StrStop.prepend (x : List Byte) {pre p : List Byte} (h : StrStop pre p) : StrStop (x ++ pre) p := by
+  cases h with
+  | eof _ _ h => exact .eof _ _ h
+  | badHex pre ds p c hl hd hc hn =>
+    have := StrStop.badHex (x ++ pre) ds p c hl hd hc hn
+    simpa [List.append_assoc] using this
+  | loneHigh pre ds p hl hd hs =>
+    have := StrStop.loneHigh (x ++ pre) ds p hl hd hs
+    simpa [List.append_assoc] using this
+
+theorem hex4_cases (line : Nat) : ∀ (n : Nat) (k r : List Byte),
+    match hex4 line n k r with
+    | .ok (k', r2) => ∃ ds, r = ds ++ r2 ∧ ds.length = n ∧ (∀ d ∈ ds, isHexDigit d = true) ∧ k' = k ++ ds
+    | .fail l p => ∃ ds c, r = ds ++ p ∧ ds.length < n ∧ (∀ d ∈ ds, isHexDigit d = true) ∧ p.head? = some c ∧
+        isHexDigit c = false ∧ l = line
+    | _ => True := by
+  intro n
+  induction n with
+  | zero => intro k r; simp only [hex4]; exact ⟨[], by simp⟩
+  | succ n ih =>
+    intro k r
+    cases r with
+    | nil => simp only [hex4]
+    | cons c r =>
+      simp only [hex4]
+      by_cases hc : isHexDigit c = true
+      · simp only [hc, if_true]
+        have := ih (k ++ [c]) r
+        cases e : hex4 line n (k ++ [c]) r with
+        | ok x =>
+          rw [e] at this
+          obtain ⟨ds, h1, h2, h3, h4⟩ := this
+          exact ⟨c :: ds, by simp [h1], by simp [h2], by
+            intro d hd; simp at hd; rcases hd with rfl | hd
+            · exact hc
+            · exact h3 d hd, by simp [h4]⟩
+        | fail l p =>
+          rw [e] at this
+          obtain ⟨ds, c', h1, h2, h3, h4, h5, h6⟩ := this
+          exact ⟨c :: ds, c', by simp [h1], by simp; omega, by
+            intro d hd; simp at hd; rcases hd with rfl | hd
+            · exact hc
+            · exact h3 d hd, h4, h5, h6⟩
+        | oob => trivial
+        | nofuel => trivial
+      · simp only [hc, if_false]
+        exact ⟨[], c, by simp, by simp, by simp, by simp, by simpa using hc, rfl⟩
+
+/-- where the string loop stops: the consumed part `pre` of the literal and the reason -/
+theorem readStr_stop : ∀ (f line : Nat) (acc r : List Byte) (l : Nat) (p : List Byte),
+    readStr f line acc r = .fail l p → ∃ pre, r = pre ++ p ∧ StrStop pre p := by
+  intro f
+  induction f with
+  | zero => intro line acc r l p h; simp [readStr] at h
+  | succ f ih =>
+    intro line acc r l p h
+    cases r with
+    | nil => simp [readStr] at h
+    | cons c r =>
+      rw [readStr_cons] at h
+      -- a recursive call on a later cursor: prepend what was consumed
+      have recur : ∀ (line' : Nat) (acc' r' x : List Byte), c :: r = x ++ r' →
+          readStr f line' acc' r' = .fail l p → ∃ pre, c :: r = pre ++ p ∧ StrStop pre p := by
+        intro line' acc' r' x hx hh
+        obtain ⟨pre, h1, h2⟩ := ih line' acc' r' l p hh
+        exact ⟨x ++ pre, by rw [hx, h1, List.append_assoc], h2.prepend x⟩
+      by_cases c0 : c = 0
+      · simp only [c0, if_true, Res.fail.injEq] at h
+        exact ⟨[], by simp [← h.2, c0], .eof _ _ (by simp [← h.2])⟩
+      simp only [c0, if_false] at h
+      by_cases c13 : c = 13
+      · simp only [c13, if_true] at h
+        cases r with
+        | nil => simp at h
+        | cons d r' =>
+          simp only at h
+          by_cases d10 : d = 10
+          · simp only [d10, if_true] at h
+            exact recur _ _ r' [c, d] (by simp) h
+          · simp only [d10, if_false] at h
+            exact recur _ _ (d :: r') [c] (by simp) h
+      simp only [c13, if_false] at h
+      by_cases c10 : c = 10
+      · simp only [c10, if_true] at h
+        exact recur _ _ r [c] (by simp) h
+      simp only [c10, if_false] at h
+      by_cases c92 : c = 92
+      · simp only [c92, if_true] at h
+        cases r with
+        | nil => simp at h
+        | cons e r' =>
+          simp only at h
+          cases hu : unesc e with
+          | some b =>
+            rw [hu] at h
+            exact recur _ _ r' [c, e] (by simp) h
+          | none =>
+            rw [hu] at h
+            simp only at h
+            by_cases e117 : e = 117
+            · simp only [e117, if_true] at h
+              have h4 := hex4_cases line 4 [] r'
+              cases e1 : hex4 line 4 [] r' with
+              | ok x =>
+                obtain ⟨k, r2⟩ := x
+                rw [e1] at h h4
+                obtain ⟨ds, hr, hl, hd, hk⟩ := h4
+                simp only [List.nil_append] at hk
+                rw [hk] at h
+                simp only [Res.bind] at h
+                by_cases hs : scanHex ds &&& 0xF800 = 0xD800 ∧ scanHex ds &&& 0xFC00 = 0xD800
+                · simp only [hs, and_self, if_true] at h
+                  -- every failure of the surrogate branch that is reported at `r2`
+                  have lone : l = line → p = r2 → ∃ pre, c :: e :: r' = pre ++ p ∧ StrStop pre p := by
+                    intro _ hp
+                    refine ⟨[] ++ [92, 117] ++ ds, ?_, .loneHigh [] ds p hl hd hs⟩
+                    rw [hp, hr, c92, e117]; simp
+                  cases r2 with
+                  | nil => simp at h
+                  | cons b1 r3 =>
+                    simp only at h
+                    by_cases g1 : b1 ≠ 92
+                    · simp only [g1, if_true, Res.fail.injEq, ne_eq, not_false_eq_true] at h
+                      exact lone h.1.symm h.2.symm
+                    simp only [g1, if_false] at h
+                    cases r3 with
+                    | nil => simp at h
+                    | cons b2 r4 =>
+                      simp only at h
+                      by_cases g2 : b2 ≠ 117
+                      · simp only [g2, if_true, Res.fail.injEq, ne_eq, not_false_eq_true] at h
+                        exact lone h.1.symm h.2.symm
+                      simp only [g2, if_false] at h
+                      have h4' := hex4_cases line 4 [] r4
+                      cases e2 : hex4 line 4 [] r4 with
+                      | ok y =>
+                        obtain ⟨k2, r5⟩ := y
+                        rw [e2] at h h4'
+                        obtain ⟨ds2, hr2, hl2, hd2, hk2⟩ := h4'
+                        simp only [Res.bind] at h
+                        by_cases g3 : scanHex k2 &&& 0xFC00 ≠ 0xDC00
+                        · simp only [g3, if_true, Res.fail.injEq, ne_eq, not_false_eq_true] at h
+                          exact lone h.1.symm h.2.symm
+                        · simp only [g3, if_false] at h
+                          exact recur _ _ r5 ([c, e] ++ ds ++ [b1, b2] ++ ds2) (by rw [hr, hr2]; simp) h
+                      | fail l2 p2 =>
+                        rw [e2] at h h4'
+                        obtain ⟨ds2, c2, hr2, hl2, hd2, hh2, hn2, _⟩ := h4'
+                        simp only [Res.bind, Res.fail.injEq] at h
+                        have b1e : b1 = 92 := by simpa using g1
+                        have b2e : b2 = 117 := by simpa using g2
+                        refine ⟨([c, e] ++ ds) ++ [92, 117] ++ ds2, ?_, ?_⟩
+                        · rw [hr, hr2, ← h.2, b1e, b2e]; simp
+                        · rw [← h.2]; exact .badHex _ ds2 p2 c2 hl2 hd2 hh2 hn2
+                      | oob => rw [e2] at h; simp [Res.bind] at h
+                      | nofuel => rw [e2] at h; simp [Res.bind] at h
+                · simp only [hs, if_false] at h
+                  exact recur _ _ r2 ([c, e] ++ ds) (by rw [hr]; simp) h
+              | fail l2 p2 =>
+                rw [e1] at h h4
+                obtain ⟨ds, c2, hr, hl, hd, hh, hn, _⟩ := h4
+                simp only [Res.bind, Res.fail.injEq] at h
+                refine ⟨[] ++ [92, 117] ++ ds, ?_, ?_⟩
+                · rw [hr, ← h.2, c92, e117]; simp
+                · rw [← h.2]; exact .badHex [] ds p2 c2 hl hd hh hn
+              | oob => rw [e1] at h; simp [Res.bind] at h
+              | nofuel => rw [e1] at h; simp [Res.bind] at h
+            · simp only [e117, if_false] at h
+              exact recur _ _ (e :: r') [c] (by simp) h
+      simp only [c92, if_false] at h
+      by_cases c34 : c = 34
+      · simp [c34] at h
+      · simp only [c34, if_false] at h
+        exact recur _ _ r [c] (by simp) h
 
 end Nstd.Json
